@@ -432,6 +432,10 @@ Section Json.
                         match all_ok (map item bs), sub nt jn None with
                         | Ok cas, Ok nf =>
                             if negb (entries_ok e) then Err
+                            (* CentrallyBin.__init__ demands two centers; IrregularlyBin/Stack.ed
+                               index bins[0] *)
+                            else if (if String.eqb ty "CentrallyBin" then Nat.ltb (List.length cas) 2
+                                     else Nat.eqb (List.length cas) 0) then Err
                             else
                               let k := if String.eqb ty "CentrallyBin" then KCentral (map fst cas)
                                        else if String.eqb ty "IrregularlyBin" then KIrr (map fst cas)
